@@ -237,6 +237,7 @@ class AL(AList):
         self._cnt = None
         self.frozen_input = False
         self.bag_of = None
+        self.ascending = None    # 'strict' / 'weak': the (scalar) elements are known to be in ascending order of position
         self.distinct = False    # no two present positions hold equal elements (known by construction)
         self.members = None      # lists whose elements, as a set, are exactly this list's elements (order/multiplicity-insensitive queries)
         self.len_of = None       # thunk -> z3 Int: the length, when it is known without a positional view
@@ -346,12 +347,21 @@ class AL(AList):
         offending index."""
         if self.void:
             return AL(z3.IntVal(0), fresh_index('g'), True, None, origin)
-        if self.bag_of is not None and self.__dict__.get('_lazy') is not None:
-            # a comprehension over a reordering of another list: as a bag it is the comprehension over that list; its positional
-            # structure (through the permutation) is only built if an element is indexed
-            inner = self.bag_of.mapfilter(fn, origin)
-            out = AL.derived(origin + ' over ' + self.origin, [inner], inner.len_term, lambda: self._mapfilter_positional(fn, origin), dense=None)
-            out.bag_of = inner
+        if self.__dict__.get('_lazy') is not None and (self.members is not None or self.bag_of is not None):
+            # a comprehension over a view (sorted / permuted / positional / distinct / concatenated) of other lists: as a SET it is
+            # the union of the comprehension over the lists the view draws from, as a BAG the comprehension over the list it
+            # reorders; its positional structure (through the permutation) is only built if an element is indexed
+            mem = [m.mapfilter(fn, origin) for m in self.members] if self.members is not None else None
+            bag = None
+            if self.bag_of is not None:
+                bag = mem[0] if (mem is not None and len(self.members) == 1 and self.members[0] is self.bag_of) else self.bag_of.mapfilter(fn, origin)
+            out = AL.derived(origin + ' over ' + self.origin, mem if mem is not None else [bag], (bag.len_term if bag is not None else None),
+                             lambda: self._mapfilter_positional(fn, origin), dense=None)
+            out.bag_of = bag
+            probe = bag if bag is not None else (mem[0] if mem else None)
+            out.distinct = bool(self.distinct and probe is not None and getattr(probe, 'pure_filter', False))
+            out.pure_filter = bool(probe is not None and getattr(probe, 'pure_filter', False))
+            out.ascending = self.ascending if out.pure_filter else None
             return out
         return self._mapfilter_positional(fn, origin)
 
@@ -374,6 +384,10 @@ class AL(AList):
         out = AL(self.n, k, present, value, origin)
         if present is p and not self.dense:
             out.len_of = self.len_term       # a pure map keeps the length
+        if rets and all(v is x for _, v in rets):
+            out.distinct = self.distinct     # a pure filter of a duplicate-free list is duplicate-free
+            out.ascending = self.ascending   # ... and of an ascending list ascending
+            out.pure_filter = True
         return out
 
     def _raise_first(self, k, guards, excs):
@@ -400,6 +414,7 @@ class AL(AList):
             return self._pos
         self._pos = AL.derived(self.origin + ' (positional)', [self], self.len_term, self._positional_now)
         self._pos.bag_of = self
+        self._pos.ascending = self.ascending
         return self._pos
 
     def _positional_now(self):
@@ -413,6 +428,12 @@ class AL(AList):
         g = fresh_index('g')
         out = AL(m, g, True, subst(self.value, [(self.kvar, iota(g))]), self.origin + ' (positional)')
         out.embedding = (self, iota, rho)
+        if self.ascending:
+            # the filtered list was in ascending order, so is its positional view (stated directly: the solver would have to
+            # chain the embedding with the sorting permutation(s) underneath)
+            vi, vj = subst(self.value, [(self.kvar, iota(j))]), subst(self.value, [(self.kvar, iota(j2))])
+            rel = as_bool_term(ops.compare('<' if self.ascending == 'strict' else '<=', force_nofork_scalar(vi), force_nofork_scalar(vj)))
+            CTX.path.assume(z3.ForAll([j, j2], z3.Implies(z3.And(j >= 0, j < j2, j2 < m), rel)))
         return out
 
     def permuted(self, why):
@@ -601,6 +622,8 @@ class ASet:
         self._card = None
 
     def card_term(self):
+        if self._card is None and getattr(self.al, 'distinct', False):
+            self._card = self.al.len_term()        # no duplicates by construction
         if self._card is None:
             al = self.al
             c = sk_int('card')
@@ -669,8 +692,15 @@ class ADict:
     def __init__(self, al):
         self.al = al
         self._keys = None
+        self.index_map_of = None      # a duplicate-free positional list L when this dictionary is {L[i]: i}
+
+    def _positions(self):
+        L = self.index_map_of
+        return L if (L is not None and L.distinct) else None
 
     def keys_al(self):
+        if self._positions() is not None:
+            return self._positions().clone()
         if self._keys is None:
             pairs = self.al
             keys = AL(pairs.n, pairs.kvar, pairs.present, pairs.value[0] if isinstance(pairs.value, tuple) else None, 'dict keys')
@@ -685,9 +715,18 @@ class ADict:
         return self.keys_al().len_term()
 
     def contains(self, key):
+        if self.index_map_of is not None:
+            return self.index_map_of.contains(key)
         return self.al.quant(lambda kv: eq_value(kv[0], key), False)
 
     def getitem(self, key):
+        L = self._positions()
+        if L is not None:
+            if not truth(L.contains(key)):
+                raise_py('KeyError', key)
+            i0 = sk_int('position')
+            CTX.path.assume(z3.And(i0 >= 0, i0 < L.n, eq_nofork(L.get(i0)[1], key)))
+            return SNum(i0)
         pairs = self.al
         if pairs.void:
             raise_py('KeyError', key)
@@ -706,6 +745,12 @@ class ADict:
         return pairs.get(k0)[1][1]
 
     def values_al(self):
+        L = self._positions()
+        if L is not None:
+            g = fresh_index('g')
+            out = AL(L.n, g, True, SNum(g), 'positions')
+            out.distinct = True
+            return out
         keys = self.keys_al()
         k = keys.kvar
         # value stored under the key first seen at index k: the value of the LAST pair with that key
@@ -801,7 +846,16 @@ def comprehension(interp, src, g, e, env, mod, kind):
     if kind == 'set':
         return ASet(out)
     if kind == 'dict':
-        return ADict(out)
+        d = ADict(out)
+        src_list = al.__dict__.get('enum_of')
+        if src_list is not None and not out.void and out.dense and isinstance(out.value, tuple) and len(out.value) == 2:
+            # {x: i for i, x in enumerate(L)}: the dictionary is the position map of L
+            kval, vval = out.value
+            _, x_at = src_list.get(out.kvar)
+            vv = force_nofork_scalar(vval)
+            if isinstance(vv, SNum) and vv.is_int and z3.simplify(vv.re - out.kvar).eq(z3.IntVal(0)) and z3.is_true(z3.simplify(eq_nofork(kval, x_at))):
+                d.index_map_of = src_list
+        return d
     return out
 
 
@@ -874,8 +928,12 @@ def sorted_(it, key=None, reverse=False):
     strict = key is None and al.distinct      # distinct elements: the order is strict (a fact the solver would need induction for)
     if al.void:
         return AL(z3.IntVal(0), fresh_index('g'), True, None, 'sorted')
+    if key is None and not reverse and al.ascending:
+        return al.clone()          # already in ascending order: sorting is the identity
     out = AL.derived('sorted', [al], al.len_term, lambda: _sorted_now(al, key, reverse, strict))
     out.bag_of = al
+    if key is None and not reverse:
+        out.ascending = 'strict' if strict else 'weak'
     return out
 
 
@@ -929,7 +987,10 @@ def enumerate_(it, start=0):
     g = fresh_index('g')
     _, x = src.get(g)
     idx = SNum(g) if (isinstance(start, int) and start == 0) else I().binop('+', start, SNum(g))
-    return AL(src.n, g, True, (idx, x), 'enumerate')
+    out = AL(src.n, g, True, (idx, x), 'enumerate')
+    if isinstance(start, int) and start == 0:
+        out.enum_of = src
+    return out
 
 
 def zip_(its):
